@@ -36,6 +36,12 @@ def _report(rep, f, sym, slot, cases, it, name, rule='R-WINDOW', which=('R-WINDO
             return False
         return bad is None
     for (text, ok, line) in it.obligations:
+        if text.startswith(('the newest sample lies', 'the early return')):
+            # a condition for the derived window to be the operator's value, not an index: reported with the window
+            if not ok and 'R-WINDOW' in which and bad is None and text not in seen:
+                seen.add(text)
+                rep.fail(rule, f.module.rel, sym, slot + ':shortcut', 'the early result of %s is not the value of its window: cannot show that %s' % (name, text), line)
+            continue
         nob += 1
         if not ok and text not in seen:
             seen.add(text)
